@@ -260,6 +260,15 @@ def run(chk, repo, tier):
             chk.ob('C14-g', 'B3-binding', key, f'call of {s.callee.key}', not mm,
                    '; '.join(f'argument `{a}` is bound to parameter `{p}`' for p, a in mm) or 'like-named binding',
                    s.loc())
+            # a caller that works in a caller-chosen unit never falls back on the callee's hard-coded default unit
+            own = set(caller.param_names())
+            for unit in ('waveunit',):     # (Blackbody.vegamag computes in photlam on purpose: valueunit defaults are not policed)
+                dflt = {nm: d for nm, d, k in s.callee.params() if nm == unit}
+                if unit in own and unit in dflt and isinstance(dflt[unit], ast.Constant) and isinstance(dflt[unit].value, str):
+                    explicit = unit in s.binding or s.star
+                    chk.ob('C14-g', 'B5-default', key, f'call of {s.callee.key} at line {s.node.lineno} passes {unit}', explicit,
+                           '' if explicit else f'relies on the default {unit}={dflt[unit].value!r} of {s.callee.key} although '
+                                               f'{key} works in the `{unit}` it was given', s.loc())
 
 
 def root_is_self(v):
